@@ -9,6 +9,7 @@
 import DDV.Extracted.Tables
 import DDV.Gen.Emit
 import DDV.Gen.Lemmas.Refs
+import DDV.Gen.Lemmas.LowerRefs
 
 namespace DDV.Props.C17
 open DDV.Extracted DDV.Gen
@@ -117,5 +118,26 @@ theorem register_ref_access (n : Names) (cfg : GlobalConfig) (all : List Object)
       m.access = some (ov.access.getD r.access) := by
   obtain ⟨m, h, _, _, _, _, _, _, h7, _⟩ := register_ref_method n cfg all rf ov r t fuel hov ht hc
   exact ⟨m, h, h7⟩
+
+/-- **The accessor of every register and buffer carries the effective access** — at any depth and
+    for refs too: whatever the lowering emits for an object that stands for a register `r'` (itself,
+    or for a ref its target with `access := override.access.getD target.access`) is typed with
+    `r'.access`; the MIR's `access` of a declared object is its own setting, else the global
+    default (`effective_register_access`). -/
+theorem accessor_access_is_the_effective_access (n : Names) (cfg : GlobalConfig) (all : List Object)
+    (fuel : Nat) (o : Object) (m : Method) (bs : List LBlock)
+    (h : getMethod n cfg all "new" fuel o = .ok (m, bs)) :
+    (∀ r', resolve n all o = some (.register r') → m.access = some r'.access) ∧
+    (∀ b', resolve n all o = some (.buffer b') → m.access = some b'.access) := by
+  obtain ⟨e, _, _⟩ := (lowering_structure_refs n cfg all fuel).1 "new" o m bs h
+  constructor
+  · intro r' hr
+    obtain ⟨rfn', he⟩ := methodOfR_resolve n cfg all o _ hr
+    rw [e, he]
+    rfl
+  · intro b' hr
+    obtain ⟨rfn', he⟩ := methodOfR_resolve n cfg all o _ hr
+    rw [e, he]
+    rfl
 
 end DDV.Props.C17
